@@ -473,3 +473,67 @@ impl Sut {
         }
     }
 }
+
+// ---------------------------------------------------------------------------------------
+// a responder in a fresh process: no history at all, not even that of earlier cases
+
+/// child side of `fresh_process`: reads {"cfg": Cfg, "frames": [hex]} from stdin, hands the frames
+/// to a responder that has seen nothing else in its life, prints one JSON array of results
+pub fn exec_frames_child() -> i32 {
+    use std::io::Read;
+    let mut inp = String::new();
+    if std::io::stdin().read_to_string(&mut inp).is_err() {
+        return 2;
+    }
+    let v: serde_json::Value = match serde_json::from_str(&inp) {
+        Ok(v) => v,
+        Err(_) => return 2,
+    };
+    let mut cfg: Cfg = match serde_json::from_value(v["cfg"].clone()) {
+        Ok(c) => c,
+        Err(_) => return 2,
+    };
+    cfg.logger = LoggerKind::None;
+    let sut = Sut::new(&cfg);
+    Sut::reset();
+    let mut outs = Vec::new();
+    for f in v["frames"].as_array().cloned().unwrap_or_default() {
+        let bytes = super::util::unhex(f.as_str().unwrap_or("")).unwrap_or_default();
+        outs.push(match sut.frame(&bytes) {
+            Out::Reply(r) => serde_json::json!({"reply": super::util::hex(&r)}),
+            Out::Silence => serde_json::json!({"silence": true}),
+            Out::Panic(p) => serde_json::json!({"panic": format!("{}:{} {}", p.file, p.line, p.msg)}),
+        });
+    }
+    println!("{}", serde_json::Value::Array(outs));
+    0
+}
+
+/// Results of handing `frames` to a responder freshly started in a process of its own (same
+/// binary, same configuration). Err = the child could not be run (infrastructure).
+pub fn fresh_process(cfg: &Cfg, frames: &[Vec<u8>]) -> Result<Vec<Out>, String> {
+    use std::io::Write;
+    use std::process::{Command, Stdio};
+    let exe = std::env::current_exe().map_err(|e| e.to_string())?;
+    let req = serde_json::json!({"cfg": cfg, "frames": frames.iter().map(|f| super::util::hex(f)).collect::<Vec<_>>()});
+    let mut ch = Command::new(exe).arg("exec-frames").stdin(Stdio::piped()).stdout(Stdio::piped()).stderr(Stdio::null()).spawn().map_err(|e| e.to_string())?;
+    ch.stdin.take().ok_or("no stdin")?.write_all(req.to_string().as_bytes()).map_err(|e| e.to_string())?;
+    let o = ch.wait_with_output().map_err(|e| e.to_string())?;
+    let text = String::from_utf8_lossy(&o.stdout).to_string();
+    let line = text.lines().rev().find(|l| l.starts_with('[')).ok_or_else(|| format!("child printed no result (status {:?})", o.status.code()))?;
+    let v: serde_json::Value = serde_json::from_str(line).map_err(|e| e.to_string())?;
+    let mut outs = Vec::new();
+    for e in v.as_array().cloned().unwrap_or_default() {
+        if let Some(r) = e.get("reply").and_then(|r| r.as_str()) {
+            outs.push(Out::Reply(super::util::unhex(r).unwrap_or_default()));
+        } else if let Some(p) = e.get("panic").and_then(|r| r.as_str()) {
+            outs.push(Out::Panic(PanicInfo { msg: p.to_string(), file: "<child>".into(), line: 0 }));
+        } else {
+            outs.push(Out::Silence);
+        }
+    }
+    if outs.len() != frames.len() {
+        return Err(format!("child answered {} of {} frames", outs.len(), frames.len()));
+    }
+    Ok(outs)
+}
